@@ -702,10 +702,9 @@ reprocess:
 			break;
 			}
 		case '%':
-			if (location + 1 > max_len) {
-				return max_len;
-			}
-			serialize[location++] = '%';
+			/* "%%" takes no argument: nothing to store, the decoder
+			 * prints the literal from the format itself */
+			format++;
 			break;
 
 		}
